@@ -74,7 +74,7 @@ PROPS = {
     ),
     'C11': dict(
         K=dict(quick=['c11_none_n7', 'c11_prev_n7', 'c11_interleaved_n2'], thorough=['c11_none_n8', 'c11_prev_n8', 'c11_interleaved_n4']),
-        S=dict(quick=['s_reads_snapdata', 's_writes_snapshot'], thorough=['s_reads_snapdata', 's_writes_snapshot', 's_reads_client']),
+        S=dict(quick=['s_reads_snapdata', 's_reads_byid', 's_writes_snapshot'], thorough=['s_reads_snapdata', 's_reads_byid', 's_writes_snapshot', 's_reads_client']),
         bounds='as C10, followed by the real get_snapshot and get_child_version; one interfering AddVersion/AddSnapshot at transaction granularity, chain <= 4',
     ),
     'C12': dict(
